@@ -55,6 +55,8 @@ pub struct Hist<'a> {
     pub ncalls: usize,
     /// a call panicked: the allocator's state is undefined, the run is over
     pub dead: bool,
+    /// last block freed successfully (for double-free letters)
+    pub last_freed: Option<(usize, usize)>,
 }
 
 impl<'a> Hist<'a> {
@@ -79,11 +81,12 @@ impl<'a> Hist<'a> {
             twin_age: 0,
             ncalls: 0,
             dead: false,
+            last_freed: None,
         }
     }
     /// continue with an already constructed (wrapped) allocator
     pub fn adopt(out: &'a mut Out, w: World, seed: u64) -> Self {
-        Hist { w, held: vec![], rng: Rng(seed), out, twin: None, twin_age: 0, ncalls: 0, dead: false }
+        Hist { w, held: vec![], rng: Rng(seed), out, twin: None, twin_age: 0, ncalls: 0, dead: false, last_freed: None }
     }
     fn wrapped(&self) -> bool {
         self.w.zone.is_some() || self.w.nvm.is_some()
@@ -235,6 +238,7 @@ impl<'a> Hist<'a> {
                 self.held.push((res["frame"].as_u64().unwrap() as usize, o));
             }
             Op::Put(f, o, _, _) if ok => {
+                self.last_freed = Some((f, o));
                 // remove / split every held block that overlaps
                 let mut nh = vec![];
                 for &(hf, ho) in &self.held {
@@ -550,6 +554,153 @@ pub fn c11_runs(out: &mut Out, seed: u64, runs: usize) {
             }
             // allocate until out of memory: every freed frame must be found
             h.bulk_get(0, 0, Some(0), false);
+        }
+    }
+}
+
+
+// ---------------------------------------------------------------------------
+// scripted histories over a symbolic alphabet (sequences generated by TLC from spec/Gen.tla)
+// ---------------------------------------------------------------------------
+
+fn sym(v: &Value) -> usize {
+    if let Some(s) = v.as_str() {
+        if let Ok(n) = s.parse::<usize>() {
+            return n;
+        }
+        let (base, off) = if let Some((b, o)) = s.split_once('+') {
+            (b, o.parse::<isize>().unwrap())
+        } else if let Some((b, o)) = s.split_once('-') {
+            (b, -o.parse::<isize>().unwrap())
+        } else {
+            (s, 0)
+        };
+        let b = match base {
+            "HO" => HO,
+            "TO" => TO,
+            "HF" => HF,
+            "TF" => TF,
+            _ => panic!("symbol {s}"),
+        } as isize;
+        return (b + off) as usize;
+    }
+    v.as_u64().unwrap_or(0) as usize
+}
+fn osl(v: &Value) -> Option<usize> {
+    if let Some(s) = v.as_str() {
+        return s.parse::<i64>().ok().and_then(|x| if x < 0 { None } else { Some(x as usize) });
+    }
+    v.as_i64().and_then(|x| if x < 0 { None } else { Some(x as usize) })
+}
+
+impl<'a> Hist<'a> {
+    /// resolve one symbolic letter against the current bookkeeping; None = not applicable now
+    /// a slot index is a valid parameter only below the class's slot count (C09): otherwise no slot
+    fn valid_slot(&self, class: u8, slot: Option<usize>) -> Option<usize> {
+        let n = self.w.classes.iter().find(|c| c.0 == class).map(|c| c.1).unwrap_or(0);
+        slot.filter(|s| *s < n)
+    }
+    pub fn resolve_letter(&self, l: &Value) -> Option<Op> {
+        let op = self.resolve_letter_raw(l)?;
+        Some(match op {
+            Op::Get(o, c, s, t) => Op::Get(o, c, self.valid_slot(c, s), t),
+            Op::Put(f, o, c, s) => Op::Put(f, o, c, self.valid_slot(c, s)),
+            x => x,
+        })
+    }
+    fn resolve_letter_raw(&self, l: &Value) -> Option<Op> {
+        let a = l.as_array()?;
+        let frames = self.w.frames;
+        match a[0].as_str()? {
+            "get" => Some(Op::Get(sym(&a[1]), sym(&a[2]) as u8, osl(&a[3]), None)),
+            "gat" => {
+                let o = sym(&a[1]);
+                let f = match a[4].as_str()? {
+                    "zero" => 0,
+                    "held" => self.held.last()?.0,
+                    "last" => frames.checked_sub(1)?,
+                    "mid" => frames / 2,
+                    "tree1" => TF + HF / 2,
+                    "freed" => self.last_freed?.0,
+                    _ => return None,
+                };
+                Some(Op::Get(o, sym(&a[2]) as u8, osl(&a[3]), Some((f >> o) << o)))
+            }
+            "putnew" => {
+                let (f, o) = *self.held.last()?;
+                Some(Op::Put(f, o, sym(&a[1]) as u8, osl(&a[2])))
+            }
+            "putold" => {
+                let (f, o) = *self.held.first()?;
+                Some(Op::Put(f, o, sym(&a[1]) as u8, osl(&a[2])))
+            }
+            "partnew" => {
+                let (f, o) = *self.held.last()?;
+                let sub = sym(&a[1]).min(o);
+                let parts = 1usize << (o - sub);
+                let part = match sym(&a[2]) {
+                    0 => 0,
+                    1 => parts / 2,
+                    _ => parts - 1,
+                };
+                Some(Op::Put(f + part * (1 << sub), sub, sym(&a[3]) as u8, osl(&a[4])))
+            }
+            "putbad" => match a[1].as_str()? {
+                "again" => {
+                    let (f, o) = self.last_freed?;
+                    Some(Op::Put(f, o, 0, None))
+                }
+                "bigger" => {
+                    let (f, o) = *self.held.last()?;
+                    let o2 = (o + 1).min(TO);
+                    Some(Op::Put((f >> o2) << o2, o2, 0, None))
+                }
+                "hugeover" => {
+                    let (f, _) = *self.held.last()?;
+                    Some(Op::Put((f >> HO) << HO, HO, 0, None))
+                }
+                "never" => Some(Op::Put(((frames.checked_sub(1)?) >> 3) << 3, 3, 0, None)),
+                _ => None,
+            },
+            "drain" => Some(Op::Drain),
+            "change" => Some(Op::Change(
+                osl(&a[1]),
+                osl(&a[2]).map(|x| x as u8),
+                sym(&a[3]),
+                osl(&a[4]).map(|x| x as u8),
+                sym(&a[5]) as u8,
+            )),
+            _ => None,
+        }
+    }
+}
+
+/// input: one JSON object per line {"run":..,"frames":..(number or {"tf","hf","plus"}),"init","cls","k","ops":[letters]}
+pub fn script_runs(out: &mut Out, path: &str) {
+    let text = std::fs::read_to_string(path).expect("script file");
+    for (i, line) in text.lines().enumerate() {
+        if line.trim().is_empty() {
+            continue;
+        }
+        let v: Value = serde_json::from_str(line).expect("script line");
+        let fr = &v["frames"];
+        let frames = if fr.is_object() {
+            sym(&fr["tf"]) * TF + sym(&fr["hf"]) * HF + sym(&fr["plus"])
+        } else {
+            sym(fr)
+        };
+        let init = v["init"].as_str().unwrap_or("free");
+        let cls = v["cls"].as_str().unwrap_or("simple");
+        let k = v["k"].as_u64().unwrap_or(1) as usize;
+        let run = format!("script:{}:{i}", v["run"].as_str().unwrap_or("?"));
+        let mut h = Hist::start(out, &run, frames, init, cls, k, i as u64, false);
+        for l in v["ops"].as_array().unwrap() {
+            if !h.alive() {
+                break;
+            }
+            if let Some(op) = h.resolve_letter(l) {
+                h.step(&op);
+            }
         }
     }
 }
